@@ -288,6 +288,42 @@ func suiteDedup(e *vh.Env) {
 		case <-time.After(20 * time.Second):
 			e.Fail("C04:poll-loop-stuck", "the list script was not consumed within 20 s", i, nil, nil, nil)
 		}
+		// first wait until every listed ID has been fetched and, where the fetch is served, answered (under the race
+		// detector and with a thousand workers this can take seconds); then for a quiet period, to see extra events
+		complete := func() bool {
+			fp.mu.Lock()
+			defer fp.mu.Unlock()
+			for x := range seen {
+				if fp.fetches[x] == 0 {
+					return false
+				}
+				if fp.fetchFail[x] <= utils.VerifMaxReadRequestRetryCount && fp.uploadCnt[x] == 0 {
+					return false
+				}
+			}
+			return true
+		}
+		events := func() int {
+			fp.mu.Lock()
+			defer fp.mu.Unlock()
+			t := 0
+			for _, c := range fp.fetches {
+				t += c
+			}
+			for _, c := range fp.uploadCnt {
+				t += c
+			}
+			return t
+		}
+		lastEv, lastAt := events(), time.Now()
+		for dl := time.Now().Add(60 * time.Second); !complete() && time.Now().Before(dl); {
+			time.Sleep(5 * time.Millisecond)
+			if ev := events(); ev != lastEv {
+				lastEv, lastAt = ev, time.Now()
+			} else if time.Since(lastAt) > 2*time.Second {
+				break // nothing has happened for two seconds: what is missing will not come
+			}
+		}
 		waitStable(func() int {
 			fp.mu.Lock()
 			defer fp.mu.Unlock()
